@@ -1,7 +1,279 @@
 package secp256k1
 
-import "testing"
+// Literal RFC 9380 oracle (math/big + real SHA-256): expand_message_xmd (5.3.1), hash_to_field (5.2),
+// simplified SWU in its defining form (6.6.2), the 3-isogeny (E.1), hash_to_curve / encode_to_curve (3).
 
-func vRunCase4(t *testing.T, c vCase) string {
-	return "unknown case kind " + c.Kind
+import (
+	"bytes"
+	"crypto/sha256"
+	"encoding/hex"
+	"math/big"
+	"testing"
+
+	"github.com/bytemare/secp256k1/internal/field"
+)
+
+var (
+	vIsoA, _ = new(big.Int).SetString("3f8731abdd661adca08a5558f0f5d272e953d363cb6f0e5d405447c01a444533", 16)
+	vIsoB    = big.NewInt(1771)
+	vZ       = new(big.Int).Sub(vP, big.NewInt(11))
+	vK       = map[string]*big.Int{}
+)
+
+func init() {
+	for k, v := range map[string]string{
+		"k10": "8e38e38e38e38e38e38e38e38e38e38e38e38e38e38e38e38e38e38daaaaa8c7",
+		"k11": "07d3d4c80bc321d5b9f315cea7fd44c5d595d2fc0bf63b92dfff1044f17c6581",
+		"k12": "534c328d23f234e6e2a413deca25caece4506144037c40314ecbd0b53d9dd262",
+		"k13": "8e38e38e38e38e38e38e38e38e38e38e38e38e38e38e38e38e38e38daaaaa88c",
+		"k20": "d35771193d94918a9ca34ccbb7b640dd86cd409542f8487d9fe6b745781eb49b",
+		"k21": "edadc6f64383dc1df7c4b2d51b54225406d36b641f5e41bbc52a56612a8c6d14",
+		"k30": "4bda12f684bda12f684bda12f684bda12f684bda12f684bda12f684b8e38e23c",
+		"k31": "c75e0c32d5cb7c0fa9d0a54b12a0a6d5647ab046d686da6fdffc90fc201d71a3",
+		"k32": "29a6194691f91a73715209ef6512e576722830a201be2018a765e85a9ecee931",
+		"k33": "2f684bda12f684bda12f684bda12f684bda12f684bda12f684bda12f38e38d84",
+		"k40": "fffffffffffffffffffffffffffffffffffffffffffffffffffffffefffff93b",
+		"k41": "7a06534bb8bdb49fd5e9e6632722c2989467c1bfc8e8d978dfb425d2685c2573",
+		"k42": "6484aa716545ca2cf3a70c3fa8fe337e0a3d21162f0d6299a7bf8192bfd2a76f",
+	} {
+		vK[k], _ = new(big.Int).SetString(v, 16)
+	}
+}
+
+func vMul(a, b *big.Int) *big.Int { return vModP(new(big.Int).Mul(a, b)) }
+func vAdd(a, b *big.Int) *big.Int { return vModP(new(big.Int).Add(a, b)) }
+func vInv0(a *big.Int) *big.Int {
+	if new(big.Int).Mod(a, vP).Sign() == 0 {
+		return big.NewInt(0)
+	}
+	return new(big.Int).ModInverse(a, vP)
+}
+func vIsSquare(a *big.Int) bool {
+	a = new(big.Int).Mod(a, vP)
+	return a.Sign() == 0 || big.Jacobi(a, vP) == 1
+}
+func vSqrt(a *big.Int) *big.Int {
+	e := new(big.Int).Add(vP, big.NewInt(1))
+	e.Rsh(e, 2)
+	return new(big.Int).Exp(a, e, vP)
+}
+
+// vSSWU: RFC 9380 section 6.6.2 (defining form) on E': y^2 = x^3 + A'x + B'.
+func vSSWU(u *big.Int) (x, y *big.Int) {
+	u2 := vMul(u, u)
+	zu2 := vMul(vZ, u2)
+	tv1 := vInv0(vAdd(vMul(zu2, zu2), zu2))
+	minusBoverA := vMul(vModP(new(big.Int).Neg(vIsoB)), vInv0(vIsoA))
+	x1 := vMul(minusBoverA, vAdd(big.NewInt(1), tv1))
+	if tv1.Sign() == 0 {
+		x1 = vMul(vIsoB, vInv0(vMul(vZ, vIsoA)))
+	}
+	g := func(x *big.Int) *big.Int { return vAdd(vAdd(vMul(vMul(x, x), x), vMul(vIsoA, x)), vIsoB) }
+	gx1 := g(x1)
+	x2 := vMul(zu2, x1)
+	gx2 := g(x2)
+	if vIsSquare(gx1) {
+		x, y = x1, vSqrt(gx1)
+	} else {
+		x, y = x2, vSqrt(gx2)
+	}
+	if u.Bit(0) != y.Bit(0) {
+		y = vModP(new(big.Int).Neg(y))
+	}
+	return x, y
+}
+
+func vOnIso(x, y *big.Int) bool {
+	return vMul(y, y).Cmp(vAdd(vAdd(vMul(vMul(x, x), x), vMul(vIsoA, x)), vIsoB)) == 0
+}
+
+// vIso: RFC 9380 appendix E.1.
+func vIso(x, y *big.Int) vPt {
+	x2 := vMul(x, x)
+	x3 := vMul(x2, x)
+	xn := vAdd(vAdd(vAdd(vMul(vK["k13"], x3), vMul(vK["k12"], x2)), vMul(vK["k11"], x)), vK["k10"])
+	xd := vAdd(vAdd(x2, vMul(vK["k21"], x)), vK["k20"])
+	yn := vAdd(vAdd(vAdd(vMul(vK["k33"], x3), vMul(vK["k32"], x2)), vMul(vK["k31"], x)), vK["k30"])
+	yd := vAdd(vAdd(vAdd(x3, vMul(vK["k42"], x2)), vMul(vK["k41"], x)), vK["k40"])
+	if xd.Sign() == 0 || yd.Sign() == 0 {
+		return vInf()
+	}
+	return vPt{x: vMul(xn, vInv0(xd)), y: vMul(y, vMul(yn, vInv0(yd)))}
+}
+
+// vAddIso: affine addition on E' (a = A').
+func vAddIso(x1, y1, x2, y2 *big.Int, inf1, inf2 bool) (x3, y3 *big.Int, inf bool) {
+	if inf1 {
+		return x2, y2, inf2
+	}
+	if inf2 {
+		return x1, y1, false
+	}
+	var lam *big.Int
+	if x1.Cmp(x2) == 0 {
+		if vAdd(y1, y2).Sign() == 0 {
+			return nil, nil, true
+		}
+		lam = vMul(vAdd(vMul(big.NewInt(3), vMul(x1, x1)), vIsoA), vInv0(vMul(big.NewInt(2), y1)))
+	} else {
+		lam = vMul(vModP(new(big.Int).Sub(y2, y1)), vInv0(vModP(new(big.Int).Sub(x2, x1))))
+	}
+	x3 = vModP(new(big.Int).Sub(new(big.Int).Sub(vMul(lam, lam), x1), x2))
+	y3 = vModP(new(big.Int).Sub(vMul(lam, vModP(new(big.Int).Sub(x1, x3))), y1))
+	return x3, y3, false
+}
+
+func vExpandXMD(msg, dst []byte, n int) []byte {
+	if len(dst) > 255 {
+		h := sha256.New()
+		h.Write([]byte("H2C-OVERSIZE-DST-"))
+		h.Write(dst)
+		dst = h.Sum(nil)
+	}
+	dstPrime := append(append([]byte{}, dst...), byte(len(dst)))
+	ell := (n + 31) / 32
+	h := sha256.New()
+	h.Write(make([]byte, 64))
+	h.Write(msg)
+	h.Write([]byte{byte(n >> 8), byte(n)})
+	h.Write([]byte{0})
+	h.Write(dstPrime)
+	b0 := h.Sum(nil)
+	h.Reset()
+	h.Write(b0)
+	h.Write([]byte{1})
+	h.Write(dstPrime)
+	bi := h.Sum(nil)
+	out := append([]byte{}, bi...)
+	for i := 2; i <= ell; i++ {
+		x := make([]byte, 32)
+		for j := range x {
+			x[j] = b0[j] ^ bi[j]
+		}
+		h.Reset()
+		h.Write(x)
+		h.Write([]byte{byte(i)})
+		h.Write(dstPrime)
+		bi = h.Sum(nil)
+		out = append(out, bi...)
+	}
+	return out[:n]
+}
+
+func vHashToCurve(msg, dst []byte, ro bool) vPt {
+	if ro {
+		ub := vExpandXMD(msg, dst, 96)
+		u0 := new(big.Int).Mod(new(big.Int).SetBytes(ub[:48]), vP)
+		u1 := new(big.Int).Mod(new(big.Int).SetBytes(ub[48:]), vP)
+		x0, y0 := vSSWU(u0)
+		x1, y1 := vSSWU(u1)
+		// RFC: Q0 = map_to_curve(u0), Q1 = map_to_curve(u1) on E (after the isogeny), R = Q0 + Q1
+		return vAddPt(vIso(x0, y0), vIso(x1, y1))
+	}
+	ub := vExpandXMD(msg, dst, 48)
+	u0 := new(big.Int).Mod(new(big.Int).SetBytes(ub), vP)
+	x0, y0 := vSSWU(u0)
+	return vIso(x0, y0)
+}
+
+func vRunCase4(t *testing.T, c vCase) (msg string) {
+	switch c.Kind {
+	case "sswu":
+		u := vBig(c.A)
+		fe := vFeOf(u)
+		e := SSWU(&fe)
+		wx, wy := vSSWU(new(big.Int).Mod(u, vP))
+		gx, gy := vFeVal(&e.x), vFeVal(&e.y)
+		if gx.Cmp(wx) != 0 || gy.Cmp(wy) != 0 {
+			return "SSWU(" + c.A + ") = (" + gx.Text(16) + "," + gy.Text(16) + "), RFC 6.6.2 gives (" + wx.Text(16) + "," + wy.Text(16) + ")"
+		}
+		if !vOnIso(gx, gy) {
+			return "SSWU output is not on the isogenous curve"
+		}
+		if gy.Bit(0) != new(big.Int).Mod(u, vP).Bit(0) {
+			return "sgn0(y) != sgn0(u)"
+		}
+		r := IsogenySecp256k13iso(e)
+		got, ok := vPointOf(r)
+		want := vIso(wx, wy)
+		if !ok || !vSame(got, want) {
+			return "isogeny(SSWU(" + c.A + ")) = " + got.String() + ", E.1 gives " + want.String()
+		}
+	case "iso":
+		// arbitrary point of E' obtained as SSWU(u) optionally doubled k times with the oracle
+		x, y := vSSWU(vBig(c.A))
+		inf := false
+		for i := 0; i < c.N && !inf; i++ {
+			x, y, inf = vAddIso(x, y, x, y, false, false)
+		}
+		if inf {
+			return ""
+		}
+		e := &Element{x: vFeOf(x), y: vFeOf(y), z: vFeOf(big.NewInt(1))}
+		got, ok := vPointOf(IsogenySecp256k13iso(e))
+		want := vIso(x, y)
+		if !ok || !vSame(got, want) {
+			return "isogeny(" + x.Text(16) + ") = " + got.String() + ", E.1 gives " + want.String()
+		}
+	case "h2c":
+		m, dst := vHex(c.A), vHex(c.B)
+		var e *Element
+		if c.Op == "RO" {
+			e = HashToGroup(m, dst)
+		} else {
+			e = EncodeToGroup(m, dst)
+		}
+		got, ok := vPointOf(e)
+		want := vHashToCurve(m, dst, c.Op == "RO")
+		if !ok || !vSame(got, want) {
+			return c.Op + "(msg=" + c.A + ", |dst|=" + itoa(len(dst)) + ") = " + got.String() + ", RFC 9380 gives " + want.String()
+		}
+		var e2 *Element
+		if c.Op == "RO" {
+			e2 = HashToGroup(m, dst)
+		} else {
+			e2 = EncodeToGroup(m, dst)
+		}
+		if e.Equal(e2) != 1 {
+			return "not deterministic"
+		}
+	case "h2s":
+		m, dst := vHex(c.A), vHex(c.B)
+		s := HashToScalar(m, dst)
+		want := new(big.Int).Mod(new(big.Int).SetBytes(vExpandXMD(m, dst, 48)), vN)
+		if !bytes.Equal(s.Encode(), vPad32(want)) {
+			return "HashToScalar(msg=" + c.A + ", |dst|=" + itoa(len(dst)) + ") = " + s.Hex() + ", RFC 9380 gives " + hex.EncodeToString(vPad32(want))
+		}
+	case "h2-panic":
+		m, dst := vHex(c.A), vHex(c.B)
+		if len(dst) == 0 && c.N == 1 {
+			dst = nil
+		}
+		for _, f := range []func(){func() { HashToGroup(m, dst) }, func() { EncodeToGroup(m, dst) }, func() { HashToScalar(m, dst) }} {
+			p := false
+			func() {
+				defer func() { p = recover() != nil }()
+				f()
+			}()
+			if !p {
+				return "empty DST did not panic"
+			}
+		}
+	case "xmd":
+		m, dst := vHex(c.A), vHex(c.B)
+		got := expandXMD(m, dst, uint(c.N))
+		if !bytes.Equal(got, vExpandXMD(m, dst, c.N)) {
+			return "expandXMD(|msg|=" + itoa(len(m)) + ", |dst|=" + itoa(len(dst)) + ", " + itoa(c.N) + ") differs from RFC 9380 5.3.1"
+		}
+	case "wide":
+		var in [48]byte
+		copy(in[:], vHex(c.A))
+		want := new(big.Int).Mod(new(big.Int).SetBytes(in[:]), vP)
+		if got := vFeVal(field.New().HashToFieldElement(in)); got.Cmp(want) != 0 {
+			return "field wide reduction of " + c.A + " = " + got.Text(16)
+		}
+	default:
+		return vRunCase5(t, c)
+	}
+	return ""
 }
